@@ -208,6 +208,13 @@ def gen_case(rng, tier):
         ops.append('%s:%s' % (k, b.hex()))
     if nh is not None and nh_pos >= len(seq):
         ops.append('N:%s:%s' % (nh[0], nh[1].hex() or '-'))
+    if nh is not None and ((nh[0] == 'U' and len(nh[1]) == 16) or nh[0] == 'L') and rng.chance(1, 2):
+        # the link-local part of an IPv6 next hop set on its own, once or twice, right behind the next hop: the global part stays
+        k = next(i for i, o in enumerate(ops) if o.startswith('N:'))
+        lls = [bytes([0xfe, 0x80] + [rng.below(256) for _ in range(14)]) for _ in range(rng.choice([1, 2, 2]))]
+        for j, ll in enumerate(lls):
+            ops.insert(k + 1 + j, 'LL:' + ll.hex())
+        nh = ('L', nh[1][:16] + lls[-1])
     if nh_bad:
         ops.append('N:X:-')
     if rng.chance(1, 3):
